@@ -79,6 +79,11 @@ pub fn sigma() -> Vec<Op> {
         Op::Mkfile(s("/d/a")),                     // 49
         Op::RemoveAll(s("/t")),                    // 50
         Op::ChownB(s("/d"), Some(5), None, true, true), // 51 (multi-step by contract)
+        // queries that return several facts about one entry, against calls that replace the entry
+        Op::Owner(s("/d/f")),                      // 52
+        Op::Entry(s("/d/f")),                      // 53
+        Op::MoveP(s("/e"), s("/d/f")),             // 54 (replaces the file by one with another owner and mode)
+        Op::Uid(s("/d/f")),                        // 55
     ]
 }
 
@@ -102,6 +107,7 @@ pub fn inits() -> Vec<(&'static str, Vec<Op>)> {
         ("/d/f=\"0\"", vec![Op::MkdirP(s("/d")), Op::WriteAll(s("/d/f"), b"0".to_vec())]),
         ("/d empty, /e=\"e\"", vec![Op::MkdirP(s("/d")), Op::WriteAll(s("/e"), b"e".to_vec())]),
         ("/d/f=\"0\", /e empty, cwd /d", vec![Op::MkdirP(s("/d")), Op::WriteAll(s("/d/f"), b"0".to_vec()), Op::MkdirP(s("/e")), Op::SetCwd(s("/d"))]),
+        ("/d/f owned 5:6 mode 600, /e=\"e\" owned 1000:1000", vec![Op::MkdirP(s("/d")), Op::WriteAll(s("/d/f"), b"0".to_vec()), Op::Chown(s("/d/f"), 5, 6), Op::Chmod(s("/d/f"), 0o600), Op::WriteAll(s("/e"), b"e".to_vec())]),
         ("/d/l -> /t (a directory link whose target was removed)", vec![Op::MkdirP(s("/d")), Op::MkdirP(s("/t")), Op::Symlink(s("/d/l"), s("/t")), Op::RemoveAll(s("/t"))]),
     ]
 }
@@ -429,7 +435,9 @@ fn families(tier: Tier) -> Vec<Family> {
     // relative arguments against a moving cwd (both paths of a two-path call resolve against one cwd)
     f.push(Family { name: "2x2 over the relative-argument core, cwd /d", inits: Some(vec![3]), progs: programs_tk(&relcore, 2, 2), bound: None, cap: 200_000 });
     let linkcore: Vec<usize> = vec![46, 47, 48, 49, 50, 51];
-    f.push(Family { name: "2x2 over the followed-listing core, dangling directory link", inits: Some(vec![4]), progs: programs_tk(&linkcore, 2, 2), bound: None, cap: 200_000 });
+    f.push(Family { name: "2x2 over the followed-listing core, dangling directory link", inits: Some(vec![5]), progs: programs_tk(&linkcore, 2, 2), bound: None, cap: 200_000 });
+    let ownercore: Vec<usize> = vec![52, 53, 54, 55, 7, 6, 21];
+    f.push(Family { name: "2x2 over the multi-fact query core, entries with different owners", inits: Some(vec![4]), progs: programs_tk(&ownercore, 2, 2), bound: None, cap: 200_000 });
     if tier == Tier::Thorough {
         f.push(Family { name: "2x2 over the atomic alphabet", inits: None, progs: programs_tk(&atomic, 2, 2), bound: None, cap: 200_000 });
         f.push(Family { name: "2x3 over a 6-call core", inits: None, progs: programs_tk(&core6, 2, 3), bound: None, cap: 200_000 });
